@@ -70,11 +70,11 @@ H = [
     dict(name="c11_l2_bytes_indef", props=["C11"], tier="thorough", cost=600,
          unit=[CV + "::read_bytes::<&[u8]> (indefinite)"],
          bound="5 symbolic bytes after a 0x5f head, chunk heads one-byte with length ≤ 1, symbolic available length", stubs=[]),
-    dict(name="c11_l2_text_indef_1_1", props=["C11"], tier="thorough", cost=1800, unit=[CV + "::read_text::<&[u8]> (indefinite)"],
+    dict(name="c11_l2_text_indef_1_1", unreached_because="ran out of 14 GB after 29 min", props=["C11"], tier="unreached", cost=1800, unit=[CV + "::read_text::<&[u8]> (indefinite)"],
          bound="frame 61 a 61 b ff with a, b symbolic (two chunks of one byte)", stubs=[]),
-    dict(name="c11_l2_indef_framing", props=["C11"], tier="thorough", cost=1800, unit=[CV + "::read_text/read_bytes::<&[u8]> (indefinite)"],
+    dict(name="c11_l2_indef_framing", unreached_because="ran out of 14 GB after 21 min", props=["C11"], tier="unreached", cost=1800, unit=[CV + "::read_text/read_bytes::<&[u8]> (indefinite)"],
          bound="3 symbolic chunk heads from {40,60,5f,7f,ff,00,80}, symbolic available length", stubs=[]),
-    dict(name="c11_l3_array_indef_nested_break", props=["C11"], tier="thorough", cost=1800, unit=[CV + "::decode_array::<&[u8]> (indefinite)", CV + "::decode_value"],
+    dict(name="c11_l3_array_indef_nested_break", unreached_because="ran out of 14 GB after 23 min", props=["C11"], tier="unreached", cost=1800, unit=[CV + "::decode_array::<&[u8]> (indefinite)", CV + "::decode_value"],
          bound="3 symbolic bytes from {01,f6,c1,81,ff} after a 9f head", stubs=[]),
     # ------------------------------------------------------------------ C07
     dict(name="c07_u64_dec5", props=["C07"], tier="quick", cost=30, unit=[PB + "::parse_u64_lit", PB + "::parse_uint_lit", "u64::from_str"],
@@ -93,23 +93,23 @@ H = [
          bound="0xffffffffffffff+2 symbolic digits; 17-digit hex; -0x800000000000000+1 symbolic digit", stubs=[]),
     dict(name="c07_hex_decode4", props=["C07"], tier="quick", cost=20, unit=[PB + "::hex_decode", "data_encoding::HEXLOWER_PERMISSIVE"],
          bound="0..=4 symbolic bytes (any byte values)", stubs=[]),
-    dict(name="c07_b64_2", props=["C07"], tier="thorough", cost=900, unit=[PB + "::base64_decode", "data_encoding::BASE64*"],
+    dict(name="c07_b64_2", unreached_because="no result in 7 min (data_encoding base64)", props=["C07"], tier="unreached", cost=900, unit=[PB + "::base64_decode", "data_encoding::BASE64*"],
          bound="2 symbolic bytes (any byte values)", stubs=[]),
-    dict(name="c07_b64_3", props=["C07"], tier="thorough", cost=600, unit=[PB + "::base64_decode"],
+    dict(name="c07_b64_3", unreached_because="data_encoding base64 is out of reach (smaller inputs did not finish)", props=["C07"], tier="unreached", cost=600, unit=[PB + "::base64_decode"],
          bound="3 symbolic bytes (any byte values)", stubs=[]),
-    dict(name="c07_b64_pad4", props=["C07"], tier="thorough", cost=600, unit=[PB + "::base64_decode"],
+    dict(name="c07_b64_pad4", unreached_because="data_encoding base64 is out of reach (smaller inputs did not finish)", props=["C07"], tier="unreached", cost=600, unit=[PB + "::base64_decode"],
          bound="xy== / xyz= with x,y,z symbolic", stubs=[]),
     dict(name="c07_clean3", props=["C07"], tier="thorough", cost=600, unit=[PB + "::clean_prefixed_byte_string"],
          bound="0..=3 symbolic ASCII bytes (VT/FF excluded as don't-care)", stubs=[]),
-    dict(name="c07_b64_padforms", props=["C07"], tier="thorough", cost=1800, unit=[PB + "::base64_decode"],
+    dict(name="c07_b64_padforms", unreached_because="no result in 10 min on a nearly concrete input", props=["C07"], tier="unreached", cost=1800, unit=[PB + "::base64_decode"],
          bound="\"QQ\" + two characters from {=, A}", stubs=[]),
-    dict(name="c07_b64_4small", props=["C07"], tier="thorough", cost=1800, unit=[PB + "::base64_decode"],
+    dict(name="c07_b64_4small", unreached_because="no result in 15 min", props=["C07"], tier="unreached", cost=1800, unit=[PB + "::base64_decode"],
          bound="4 characters from the alphabet {=, A, g, /, _, Q}", stubs=[]),
     # ------------------------------------------------------------------ C15
     dict(name="c15_error_range_ascii6", props=["C15", "C05"], tier="quick", cost=30,
          unit=[PB + "::compute_error_range", PB + "::scan_token_end", PB + "::scan_token_start"],
          bound="ASCII input 0..=6 symbolic bytes, symbolic index ≤ len", stubs=[]),
-    dict(name="c15_convert_error_ascii4", props=["C15"], tier="thorough", cost=1800,
+    dict(name="c15_convert_error_ascii4", unreached_because="no result in 15 min on 2 symbolic bytes (pest Error::new_from_pos)", props=["C15"], tier="unreached", cost=1800,
          unit=[PB + "::convert_pest_error", "pest::error::Error::new_from_pos", PB + "::compute_error_range"],
          bound="ASCII input 0..=2 symbolic bytes, symbolic error position",
          stubs=["create_enhanced_error_message (message text only) stubbed to an empty message"]),
@@ -138,7 +138,7 @@ H = [
          unit=[CB + "::CBORValidator::find_unconsumed_map_entry", CB + "::CBORValidator::collect_unconsumed_map_entries_matching",
                CB + "::CBORValidator::is_unconsumed_map_entry"],
          bound="3 entries with symbolic (possibly equal) keys, symbolic ledger of ≤ 2 claimed indices, symbolic wanted key", stubs=[]),
-    dict(name="c10_ledger_wide", props=["C10"], tier="thorough", cost=1800,
+    dict(name="c10_ledger_wide", unreached_because="no result in 60 min", props=["C10"], tier="unreached", cost=1800,
          unit=[CB + "::CBORValidator::collect_unconsumed_map_entries_matching", CB + "::CBORValidator::find_unconsumed_map_entry"],
          bound="66 entries, one claimed index symbolic in 0..66", stubs=[]),
     # ------------------------------------------------------------------ C09 / C02
@@ -172,15 +172,15 @@ H = [
          bound="text of 0..=2 symbolic printable ASCII bytes without '\"' and '\\'", stubs=[]),
     dict(name="c06_text_render_special2", props=["C06"], tier="quick", cost=30, unit=["<cddl::token::Value as Display>::fmt (TEXT)"],
          bound="text of 1..=2 symbolic printable ASCII bytes, at least one '\"' or '\\'", stubs=[], finding="KF-C06-text-not-escaped"),
-    dict(name="c06_b16_roundtrip2", props=["C06"], tier="thorough", cost=900, unit=["<cddl::token::ByteValue as Display>::fmt (B16)", PB + "::hex_decode"],
+    dict(name="c06_b16_roundtrip2", unreached_because="no result in 7 min", props=["C06"], tier="unreached", cost=900, unit=["<cddl::token::ByteValue as Display>::fmt (B16)", PB + "::hex_decode"],
          bound="0..=2 symbolic bytes", stubs=[]),
-    dict(name="c06_b64_roundtrip1", props=["C06"], tier="thorough", cost=900, unit=["<cddl::token::ByteValue as Display>::fmt (B64)", PB + "::base64_decode"],
+    dict(name="c06_b64_roundtrip1", unreached_because="no result in 7 min", props=["C06"], tier="unreached", cost=900, unit=["<cddl::token::ByteValue as Display>::fmt (B64)", PB + "::base64_decode"],
          bound="1 symbolic byte", stubs=[]),
     dict(name="c06_uint_roundtrip2", props=["C06"], tier="quick", cost=15, unit=["<cddl::token::Value as Display>::fmt (UINT)", PB + "::parse_uint_lit"],
          bound="0 ≤ u < 100", stubs=[]),
-    dict(name="c06_b16_roundtrip1", props=["C06"], tier="thorough", cost=1800, unit=["<cddl::token::ByteValue as Display>::fmt (B16)", PB + "::hex_decode"],
+    dict(name="c06_b16_roundtrip1", unreached_because="no result in 10 min (data_encoding through fmt::Formatter)", props=["C06"], tier="unreached", cost=1800, unit=["<cddl::token::ByteValue as Display>::fmt (B16)", PB + "::hex_decode"],
          bound="1 symbolic byte", stubs=[]),
-    dict(name="c06_occur_render", props=["C06"], tier="thorough", cost=1800, unit=["<cddl::ast::Occur as Display>::fmt", PB + "::parse_uint_lit"],
+    dict(name="c06_occur_render", unreached_because="ran out of 14 GB after 2 min (integer formatting)", props=["C06"], tier="unreached", cost=1800, unit=["<cddl::ast::Occur as Display>::fmt", PB + "::parse_uint_lit"],
          bound="Occur::Exact with optional bounds < 100", stubs=[]),
     # ------------------------------------------------------------------ C03 (E1 part)
     dict(name="c03_control_table", props=["C03"], tier="quick", cost=150, unit=["cddl::token::lookup_control_from_str", "<cddl::token::ControlOperator as Display>::fmt"],
@@ -320,5 +320,6 @@ for _h in H:
 
 
 def for_property(pid, tier):
-    out = [h for h in H if pid in h["props"] and (tier == "thorough" or h["tier"] == "quick" or pid in h.get("quick_for", []))]
+    out = [h for h in H if pid in h["props"] and h["tier"] != "unreached"
+           and (tier == "thorough" or h["tier"] == "quick" or pid in h.get("quick_for", []))]
     return out
